@@ -25,6 +25,8 @@ LABELS = {
     "str": ["a", "b", "ab", "c", "abc", "bb", "d", "ba", "cd"] + ["arm%d" % i for i in range(10, 25)],
     "float": [i + 0.5 for i in range(24)],
     "negint": [-3, 10, -7, 2, 5, -1, 8, 0, 4] + [(-1) ** i * (20 + i) for i in range(15)],
+    # one numeric arm list mixing int and non-integral float labels, first label an int
+    "mixnum": [1, 2, 4.5, 3, 0.5, 7, 2.25, 10, 6.75, 12, 13, 8.5] + [(40 + i) if i % 2 else (40 + i + 0.25) for i in range(12)],
     "strrev": ["z", "y", "x", "w", "v", "u", "t", "s", "r"] + ["q%02d" % (40 - i) for i in range(15)],
 }
 
@@ -121,7 +123,9 @@ def gen_cfg(rs, lp_kind, np_kind, labels="int", n_arms=None, deterministic=False
     # hostile reward magnitudes: one class per configuration, never for linear policies (their comparisons carry a relative
     # tolerance that assumes rewards of order one)
     stress = int(pick(rs, [0, 1, 2, 3, 4, 5])) if (rs.integers(5) == 0 and lp_kind not in LIN_KINDS) else None
-    return {"arms": arms, "labels": labels, "reward_stress": stress,
+    # the caller's habitual container for contexts (a quarter of the histories have one)
+    house = pick(rs, ["series", "series", "narrow", "frame", "list", "i8", "f4", "fortran"]) if rs.integers(4) == 0 else None
+    return {"arms": arms, "labels": labels, "reward_stress": stress, "x_house": house,
             "lp": gen_lp(rs, lp_kind, deterministic, binarizer),
             "np": gen_np(rs, np_kind, n_arms, with_probs),
             "seed": int(seed if seed is not None else pick(rs, [0, 7, 42, 123456, 2 ** 31 - 1, int(rs.integers(10 ** 6))])),
@@ -274,6 +278,76 @@ def _arr(x):
     return None if x is None else np.asarray(x, dtype=float)
 
 
+# containers / dtypes a context matrix may legally arrive in; every one holds exactly the same values (an encoding that cannot
+# hold them falls back to float64), so the documented results must not depend on it
+X_ENCS = ("list", "i8", "narrow", "narrow", "f4", "frame", "fortran", "series")
+
+
+def pick_enc(rs, cfg, p=3):
+    """context encoding of one call: the history's preferred container (cfg["x_house"], if any) in 3/4 of the calls,
+    otherwise None (float64 ndarray) in (p-1)/p of the calls and a random one in the rest"""
+    if cfg.get("x_house") and rs.integers(4):
+        e = cfg["x_house"]
+    elif rs.integers(p):
+        return None
+    else:
+        e = pick(rs, X_ENCS)
+    if e == "f4" and cfg["np"]["kind"] not in ("radius", "knn", "lsh"):
+        e = "narrow"  # single precision inside k-means / the ridge algebra changes roundings; distances and hashes upcast first
+    return e
+
+
+def enc_X(X, enc, single_feature_model=None, training=False):
+    A = np.asarray(X, dtype=float)
+    if enc is None or A.ndim != 2 or A.size == 0:
+        return A
+    integral = bool(np.all(A == np.floor(A)))
+    if enc == "list":
+        return [[float(v) for v in row] for row in A.tolist()]
+    if enc == "i8" and integral and np.abs(A).max() < 2 ** 62:
+        return A.astype(np.int64)
+    if enc == "narrow" and integral:
+        for dt in (np.uint8, np.int8, np.int16, np.int32):
+            info = np.iinfo(dt)
+            if A.min() >= info.min and A.max() <= info.max:
+                return A.astype(dt)
+        return A
+    if enc == "f4":
+        with np.errstate(all="ignore"):
+            B = A.astype(np.float32)
+        return B if np.array_equal(B.astype(float), A) else A
+    if enc == "frame":
+        import pandas as pd
+        return pd.DataFrame(A, index=range(10, 10 + A.shape[0]), columns=["c%d" % i for i in range(A.shape[1])])
+    if enc == "fortran":
+        return np.asfortranarray(A)
+    if enc == "series":
+        import pandas as pd
+        # the documented reading of a Series: several rows of a one-feature problem, or one row of several features
+        if training:
+            if A.shape[1] == 1 and A.shape[0] > 1:
+                return pd.Series(A[:, 0])
+            if A.shape[0] == 1:
+                return pd.Series(A[0])
+        elif single_feature_model is not None:
+            if single_feature_model and A.shape[1] == 1:
+                return pd.Series(A[:, 0])
+            if not single_feature_model and A.shape[0] == 1 and A.shape[1] > 1:
+                return pd.Series(A[0])
+    return A
+
+
+def _enc_query(m, op):
+    X = op["X"]
+    e = op.get("x_enc")
+    if e is None:
+        return _arr(X)
+    sfm = None
+    if e == "series" and m.is_contextual:
+        sfm = len(X[0]) == 1
+    return enc_X(X, e, single_feature_model=sfm)
+
+
 def apply_op(m, op):
     """drive one public call described by a literal op dict; returns the canonical result"""
     k = op["op"]
@@ -282,14 +356,14 @@ def apply_op(m, op):
         d = np.asarray(op["d"])
         r = np.asarray(op["r"], dtype=bool if op.get("r_dtype") == "bool" else float)
         if op.get("X") is not None:
-            f(d, r, _arr(op["X"]))
+            f(d, r, enc_X(op["X"], op.get("x_enc"), training=True))
         else:
             f(d, r)
         return None
     if k == "predict":
-        return canon(m.predict(_arr(op["X"])) if op.get("X") is not None else m.predict())
+        return canon(m.predict(_enc_query(m, op)) if op.get("X") is not None else m.predict())
     if k == "predict_expectations":
-        return canon(m.predict_expectations(_arr(op["X"])) if op.get("X") is not None else m.predict_expectations())
+        return canon(m.predict_expectations(_enc_query(m, op)) if op.get("X") is not None else m.predict_expectations())
     if k == "add_arm":
         b = op.get("binarizer")
         if b is not None:
@@ -383,6 +457,7 @@ class Shadow:
         self.fitted = False
         self.nf = nf
         self.rows = 0
+        self.vary_nf = False  # opt-in: a refit inside a mixed history may change the number of features
 
 
 LEN_SCALE = 1  # set per case by mon.worker: the thorough tier stretches the mixed-call part of every tenth history
@@ -402,6 +477,8 @@ def gen_ops(rs, cfg, sh, n_ops, kinds, sizes=(1, 2, 3, 5, 8), train_rows=(1, 9),
             isfit = k == "fit" or not sh.fitted
             if isfit and nf_choices and ctx:
                 sh.nf = int(pick(rs, nf_choices))
+            elif isfit and ctx and sh.fitted and sh.vary_nf and rs.integers(3) == 0:
+                sh.nf = int(pick(rs, [1, 1, 2, 3]))  # a refit may bring another number of features
             lo = max(train_rows[0], min_rows(cfg) if isfit else 1)
             n = int(rs.integers(lo, max(lo, train_rows[1]) + 1))
             omit = None
@@ -410,6 +487,8 @@ def gen_ops(rs, cfg, sh, n_ops, kinds, sizes=(1, 2, 3, 5, 8), train_rows=(1, 9),
             b = gen_batch(rs, cfg, sh.arms, n, sh.nf, rkind, omit,
                           distinct_rows=(cfg["np"]["n_clusters"] if cfg["np"]["kind"] == "clusters" and isfit else 0))
             ops.append({"op": k, "d": b["d"], "r": b["r"], "X": b["X"]})
+            if ctx:
+                ops[-1]["x_enc"] = pick_enc(rs, cfg)
             sh.rows = n if isfit else sh.rows + n
             sh.fitted = True
         elif k == "add_arm":
@@ -437,8 +516,10 @@ def gen_ops(rs, cfg, sh, n_ops, kinds, sizes=(1, 2, 3, 5, 8), train_rows=(1, 9),
             if not sh.fitted:
                 continue
             m = int(pick(rs, sizes))
+            if ctx and cfg.get("x_house") == "series" and sh.nf > 1 and rs.integers(2):
+                m = 1  # a Series is one row of a multi-feature problem
             if ctx:
-                ops.append({"op": k, "X": gen_contexts(rs, m, sh.nf)})
+                ops.append({"op": k, "X": gen_contexts(rs, m, sh.nf), "x_enc": pick_enc(rs, cfg)})
             elif rs.integers(3) == 0:
                 ops.append({"op": k, "X": gen_contexts(rs, m, 2)})  # context-free bandit called with contexts
             else:
